@@ -51,6 +51,27 @@ def _enclosing_for(fn, src):
     return None
 
 
+def _sorted_before_use(fn, collect_node):
+    """`let mut v: Vec<_> = <hash iter>.collect(); v.sort*();` — the first use of the local is a total sort"""
+    hid = None
+    for st in walk(fn["body"]):
+        if st.get("k") == "Let" and st.get("init") is collect_node and st["pat"].get("k") == "Binding":
+            hid = st["pat"]["hid"]
+    if hid is None:
+        return False
+    uses = []
+    for n in walk(fn["body"]):
+        if n.get("k") == "Path" and n.get("res", {}).get("hid") == hid:
+            uses.append(n)
+    if not uses:
+        return False
+    first = uses[0]
+    for n in walk(fn["body"]):
+        if n.get("k") == "MethodCall" and n["method"] in ("sort", "sort_unstable") and peel(n["recv"]) is first:
+            return True
+    return False
+
+
 def _binding_hids(p):
     return [b["hid"] for b in walk(p) if b.get("k") == "Binding"]
 
@@ -147,6 +168,8 @@ def hashorder(F):
                     cls, detail = "order-free-terminal", parent_chain
                 elif term == "collect" and HM.search(cur.get("ty", "")):
                     cls, detail = "collect-into-hash-container", parent_chain
+                elif term == "collect" and _sorted_before_use(fn, cur):
+                    cls, detail = "collected-then-sorted", parent_chain + ["sort"]
                 else:
                     cls, detail = "order-sensitive", ["chain " + ".".join(parent_chain)]
             else:
@@ -163,7 +186,7 @@ def hashorder(F):
                 else:
                     cls, detail = "escapes-to-api-user-only", ["no crate-internal caller"]
         key = "%s | %s | %s" % (fn["path"], short_ty(mty), method)
-        okcls = cls in ("keyed-injective-copy", "diagnostic-only", "order-free-terminal", "collect-into-hash-container", "escapes-to-api-user-only")
+        okcls = cls in ("keyed-injective-copy", "diagnostic-only", "order-free-terminal", "collect-into-hash-container", "collected-then-sorted", "escapes-to-api-user-only")
         if not okcls and key in rows:
             # reviewed disjoint-sink exception: the consumer set must still be what was reviewed
             want = set(rows[key].get("consumers", []))
